@@ -1,6 +1,7 @@
 SPECIFICATION Spec
 CONSTANTS
   MaxLen = 6
+  NulHeaderCheck = TRUE
   PreambleArmorCheck = TRUE
 INVARIANT Conforms
 INVARIANT BodyOnly
